@@ -22,7 +22,11 @@ RULE = ("matrices are built from an SVD with prescribed singular values "
         "floats, numpy scalars and arrays (arguments are also checked for not "
         "being mutated).  Signature = (kernel, rows, cols/subspace dim, "
         "real|complex, sv-class, decade of kappa); non-trivial = matrix with "
-        "more than one entry / value != reference point.")
+        "more than one entry / value != reference point.  "
+        "Chordal distances also between subspaces of different dimensions and "
+        "for unit-norm non-orthogonal bases; a third of the covariances are "
+        "Hermitian only up to rounding; leig on rank-deficient G G^H must "
+        "return an orthonormal null-space basis. ")
 ASSUMPTIONS = ["tolerances are c*eps*n*kappa^p backward-error bounds with the "
                "kappa the generator prescribed; the principal-angle route is "
                "allowed sqrt(eps) (arccos near 1)",
